@@ -6,7 +6,7 @@ from mc.ref import refurl, refpsl, vocab
 
 PROP = "C06"
 B_HOST = ["a.com", "b.a.co.uk", "télérama.fr", "facebook.com", "youtube.com", "shop.example.org"]
-B_PATH = ["", "/p", "/P/Q.html", "/a b/É"]
+B_PATH = ["", "/p", "/P/Q.html", "/a b/É", "/embed/dQw4w9WgXcQ"]
 BASE = [("b_host", B_HOST), ("b_path", B_PATH), ("b_query", list(range(len(nvar.B_QUERY))))]
 OPTS = [("strip_suffix", [False, True]), ("platform_aware", [False, True])]
 EXTRA = [
